@@ -75,6 +75,7 @@ public:
     std::map<std::string, RPolicy> rpolicy_by_path;   // ... unless the path has its own
     unsigned fopen_fail_k = 0;      // the k-th fopen for writing fails (0 = never)
     unsigned fopen_w_calls = 0;
+    std::set<std::string> unopenable;   // paths that cannot be opened for writing (occupied by a directory, no permission): persistent
 
     void reset();
     // harness-side helpers (no events generated)
